@@ -5,7 +5,7 @@
 
   Vocabulary.  `queriesInOrder other`: the query rows in the order they are visited (grouped by chromosome in
   order of first appearance; the table itself when it has one chromosome).  `hitsOf table inner q`: the slice
-  `iter_slices` computes for query row `q` among the rows of `q`'s chromosome.  `WFGenome t`: within each
+  `iter_slices` computes for query row `q` among the rows of `q`'s chromosome.  `WFGenomeQ t`: within each
   chromosome sorted by start, coordinates ≥ 0, start < end (decidable; chromosomes may even interleave).
   `rangeSpec rows qs qe mode`: the property's wording — rows with `end > qs ∧ start < qe` (outer, trim) or
   `start ≥ qs ∧ end ≤ qe` (inner), `none` = open side, clipped to the query in trim mode.
@@ -45,7 +45,7 @@ theorem iter_ranges_of_drops_only_empty (table other : Table) (mode : Mode) :
   iterSlices_drop table other mode
 
 /-- … and a slice is exactly the rows of the query's chromosome the property names, in table order -/
-theorem slice_is_the_named_rows (source : Table) (h : WFGenome source) (inner : Bool) (q : Row) (hq : 0 ≤ q.s) :
+theorem slice_is_the_named_rows (source : Table) (h : WFGenomeQ source) (inner : Bool) (q : Row) (hq : 0 ≤ q.s) :
     hitsOf source inner q =
       source.filter (fun r => r.chrom == q.chrom && selFilter (some q.s) (some q.e) inner r) :=
   hitsOf_exact source h inner q hq
@@ -55,7 +55,7 @@ theorem slice_is_the_named_rows (source : Table) (h : WFGenome source) (inner : 
 /-- for well-formed tables of any number of chromosomes: each query row, in visiting order, paired with exactly the
     rows of its chromosome the property names (clipped in trim mode); keep_empty off drops exactly the pairs whose
     selection is empty (a chromosome missing from the queried table gives empty selections) -/
-theorem by_ranges_is_the_named_rows (table other : Table) (mode : Mode) (ke : Bool) (h : WFGenome table)
+theorem by_ranges_is_the_named_rows (table other : Table) (mode : Mode) (ke : Bool) (h : WFGenomeQ table)
     (hq : ∀ b ∈ other, 0 ≤ b.s) :
     byRanges table other mode ke =
       ((queriesInOrder other).map (fun b =>
@@ -73,7 +73,7 @@ theorem intersection_concatenates_per_query (table other : Table) (mode : Mode) 
         selectRange (table.filter (fun r => r.chrom == b.chrom)) (some b.s) (some b.e) mode) :=
   intersection_per_query table other mode
 
-theorem intersection_is_the_named_rows (table other : Table) (mode : Mode) (h : WFGenome table)
+theorem intersection_is_the_named_rows (table other : Table) (mode : Mode) (h : WFGenomeQ table)
     (hq : ∀ b ∈ other, 0 ≤ b.s) :
     intersection table other mode =
       (queriesInOrder other).flatMap (fun b =>
@@ -114,7 +114,7 @@ theorem into_ranges_value (r0 : Row) (rest dest : Table) (col : Row → Val) (d 
 /-- … in the property's own words (and those of the oracle the driver evaluates on the REAL output): the rows hit
     are those of the query's chromosome with `end > query start` and `start < query end` -/
 theorem into_ranges_value_in_property_words (r0 : Row) (rest dest : Table) (col : Row → Val) (d : Val)
-    (s : Summary) (h : WFGenome (r0 :: rest)) (hq : ∀ q ∈ dest, 0 ≤ q.s) :
+    (s : Summary) (h : WFGenomeQ (r0 :: rest)) (hq : ∀ q ∈ dest, 0 ≤ q.s) :
     intoRanges (r0 :: rest) dest col d s =
       (queriesInOrder dest).map (fun q =>
         seriesToValue d (pickSummary s (col r0)) ((selectSpec (r0 :: rest) q.chrom q.s q.e .outer).map col)) :=
@@ -183,7 +183,7 @@ theorem supplied_function_is_applied (f : List Val → Val) (first : Val) (vs : 
 /-! ### non-vacuity -/
 
 /-- two chromosomes interleaved, nested rows on chr1 -/
-example : WFGenome [⟨"chr1", 0, 100, "a"⟩, ⟨"chr2", 5, 9, "x"⟩, ⟨"chr1", 10, 20, "b"⟩, ⟨"chr1", 30, 40, "c"⟩] := by
+example : WFGenomeQ [⟨"chr1", 0, 100, "a"⟩, ⟨"chr2", 5, 9, "x"⟩, ⟨"chr1", 10, 20, "b"⟩, ⟨"chr1", 30, 40, "c"⟩] := by
   decide
 
 example : intersection [⟨"chr1", 0, 100, "a"⟩, ⟨"chr1", 10, 20, "b"⟩, ⟨"chr2", 5, 9, "x"⟩]
